@@ -260,4 +260,37 @@ def IcpMod.run2 (align : Pairs α → SE3 α) (nn : Cloud α → Vec3 α → Nat
     let rest := IcpMod.run2 align nn a r.1 cs
     (rest.1, r.2 :: rest.2)
 
+/-! ## batched calls: what is decided per batch rather than per item
+
+* `ICP.forward` on a batch: every pass acts on every item, but `stepper.step(error)` is given the *vector* of the items'
+  errors and a shipped stepper decides with `torch.all` over it — one common number of passes for the whole batch.
+* `svdstf` on a batch: everything is per item except `mat2Sim3`'s rank test, `allclose(s, 0)` over the whole batch. -/
+
+/-- the batched loop: `cont` sees the history of error *vectors* (one entry per item, most recent first) -/
+def icpLoopB (align : Pairs α → SE3 α) (nn : Cloud α → Vec3 α → Nat) (cont : List (List α) → Bool) :
+    Nat → List (Cloud α × Cloud α) → List (List α) → List (Cloud α × Cloud α) × List (List α)
+  | 0, items, errs => (items, errs)
+  | fuel + 1, items, errs =>
+    if cont errs then
+      icpLoopB align nn cont fuel (items.map fun it => (icpStep align nn it.2 it.1, it.2))
+        ((items.map fun it => icpError nn it.2 it.1) :: errs)
+    else (items, errs)
+
+/-- `ICP.forward` on a batch of (source, target) items with a common optional `init` per item -/
+def icpWithB (align : Pairs α → SE3 α) (nn : Cloud α → Vec3 α → Nat) (cont : List (List α) → Bool) (fuel : Nat)
+    (items : List (Option (SE3 α) × Cloud α × Cloud α)) : List (SE3 α) :=
+  let start := items.map fun it => (icpStart it.1 it.2.1, it.2.2)
+  let fin := (icpLoopB align nn cont fuel start []).1
+  List.zipWith (fun it f => align (it.2.1.zip f.1)) items fin
+
+/-- what `svdstf` hands to `mat2Sim3` for one item -/
+def svdstfIn (svd : Mat3 α → SVD3 α) (detK : Mat3 α → α) (withScale : Bool) (ps : Pairs α) : MatIn α :=
+  let r := svdstfMat svd detK withScale ps
+  ⟨.m34, Mat3.smul r.1 r.2.1, r.2.2, Vec3.zero, k 0⟩
+
+/-- `pp.svdstf` on a batch: per-item `svdstfMat`, then the *batch-level* conversion `mat2Sim3Batch` -/
+def svdstfBatch (svd : Mat3 α → SVD3 α) (detK : Mat3 α → α) (rtol atol : α) (withScale : Bool) (items : List (Pairs α)) :
+    Except ConvErr (List (Sim3 α)) :=
+  mat2Sim3Batch detK true rtol atol (items.map (svdstfIn svd detK withScale))
+
 end PP.Align
